@@ -31,7 +31,7 @@ def run(tier, seed):
     return finish(PROP, tier, seed, "model_checking", acc, cov,
                   ["relation predicates of mc/contracts.py (written from the documentation)",
                    "interpreted mode executes the same Python source numba compiles (bound to compiled mode by C15)"],
-                  t0, vacuity={"pruned_types": 14, "second_calls": 100000, "nt_affine_eq_pruned": 1000})
+                  t0, vacuity={"pruned_types": 11, "second_calls": 100000, "nt_affine_eq_pruned": 1000})
 
 
 def replay(entry):
